@@ -187,13 +187,53 @@ def run(repo, rep, tier):
 
     # ---- R2 tuple conventions
     sm = repo.func("cell.py", "Cell._set_merge")
-    st = {U(n.targets[0]): U(n.value) for n in body_walk(sm) if isinstance(n, ast.Assign)}
-    want = {"self.row_start": "merge_ref.rect[0]", "self.col_start": "merge_ref.rect[1]", "self.row_end": "merge_ref.rect[2]", "self.col_end": "merge_ref.rect[3]"}
+    from ..symexec import subst as _subst
+    single = {}
+    counts = {}
+    for n in body_walk(sm):
+        if isinstance(n, ast.Assign) and len(n.targets) == 1 and isinstance(n.targets[0], (ast.Name, ast.Attribute)):
+            k_ = U(n.targets[0])
+            counts[k_] = counts.get(k_, 0) + 1
+            single[k_] = n.value
+    single = {k_: v_ for k_, v_ in single.items() if counts[k_] == 1}
+
+    def resolve(e, depth=0):
+        """Substitute single-assignment locals and the self.<field> values stored by this very function."""
+        cur = e
+        for _ in range(5):
+            names = {k_: v_ for k_, v_ in single.items() if "." not in k_}
+            nxt = _subst(cur, names)
+            class _A(ast.NodeTransformer):
+                def visit_Attribute(self, node):
+                    k2 = U(node)
+                    if k2 in single and isinstance(node.ctx, ast.Load):
+                        return _subst(single[k2], {})
+                    return self.generic_visit(node)
+            nxt = _A().visit(nxt)
+            if U(nxt) == U(cur):
+                break
+            cur = nxt
+        return U(cur).replace(" ", "")
+
+    R = "merge_ref.rect"
+    want = {"self.row_start": f"{R}[0]", "self.col_start": f"{R}[1]", "self.row_end": f"{R}[2]", "self.col_end": f"{R}[3]"}
     for k, v in want.items():
-        rep.ob("C12.R2", sm, f"Cell._set_merge: {k} = {v}", st.get(k) == v, f"found {st.get(k)}", key=f"C12.R2@_set_merge:{k}")
-    for k, v in {"top_merged": "self.row > self.row_start", "right_merged": "self.col < self.col_end", "bottom_merged": "self.row < self.row_end", "left_merged": "self.col > self.col_start"}.items():
-        rep.ob("C12.R2", sm, f"Cell._set_merge: {k} = {v}", st.get(k) == v, f"found {st.get(k)}", key=f"C12.R2@_set_merge:{k}")
-    rep.ob("C12.R2", sm, "Cell._set_merge: merge_range = xl_range(*rect)", st.get("self.merge_range", "").count("xl_range(*merge_ref.rect)") == 1 or "xl_range(*merge_ref.rect)" in U(sm), "", key="C12.R2@_set_merge:range")
+        got = resolve(single[k]) if k in single else None
+        rep.ob("C12.R2", sm, f"Cell._set_merge: {k} = {v}", got == v, f"found {got}", key=f"C12.R2@_set_merge:{k}")
+    cb_cls = repo.func("cell.py", "CellBorder.__init__")
+    cb_params = [a.arg for a in cb_cls.args.args][1:]
+    borders = [c for c in body_walk(sm) if isinstance(c, ast.Call) and call_name(c) == "CellBorder" and (c.args or c.keywords)]
+    flags = {}
+    if len(borders) == 1:
+        for p_, a_ in zip(cb_params, borders[0].args):
+            flags[p_] = resolve(a_)
+        for kw in borders[0].keywords:
+            flags[kw.arg] = resolve(kw.value)
+    for k, v in {"top_merged": f"self.row>{R}[0]", "right_merged": f"self.col<{R}[3]", "bottom_merged": f"self.row<{R}[2]", "left_merged": f"self.col>{R}[1]"}.items():
+        rep.ob("C12.R2", borders[0] if borders else sm, f"Cell._set_merge: {k} = {v}", flags.get(k) == v, f"found {flags.get(k)}", key=f"C12.R2@_set_merge:{k}")
+    rng = resolve(single["self.merge_range"]) if "self.merge_range" in single else None
+    mranges = [resolve(n.value) for n in body_walk(sm) if isinstance(n, ast.Assign) and U(n.targets[0]) == "self.merge_range"]
+    rep.ob("C12.R2", sm, "Cell._set_merge: merge_range = xl_range(*rect)", f"xl_range(*{R})" in mranges, f"found {mranges}", key="C12.R2@_set_merge:range")
     # anchor branch
     anchor_if = [n for n in body_walk(sm) if isinstance(n, ast.If) and "MergeAnchor" in U(n.test)]
     ok = bool(anchor_if) and any(isinstance(x, ast.Assign) and U(x.targets[0]) == "self.is_merged" and U(x.value) == "True" for x in anchor_if[0].body) and \
@@ -207,25 +247,51 @@ def run(repo, rep, tier):
     ok = [a.arg for a in xr.args.args] == ["first_row", "first_col", "last_row", "last_col"] and \
         "xl_rowcol_to_cell(first_row, first_col)" in U(xr) and "xl_rowcol_to_cell(last_row, last_col)" in U(xr)
     rep.ob("C12.R2", xr, "xl_range(first_row, first_col, last_row, last_col) pairs rows with columns", ok, "", key="C12.R2@xl_range")
-    # ---- R5 merge_ranges from grid anchors
+    # ---- R5 merge_ranges from grid anchors (the iteration may be two loops or one comprehension)
     mrg = repo.func("document.py", "Table.merge_ranges")
+    from ..symexec import expand_aliases
     calls = [n for n in body_walk(mrg) if isinstance(n, ast.Call) and call_name(n) == "xl_range"]
+    if len(calls) != 1:
+        raise AnalysisError("Table.merge_ranges: xl_range call not found")
+    call = calls[0]
+    gens = []  # (target, iter, ifs) from the outside in
+    filters = []
+    p = call
+    while getattr(p, "_parent", None) is not None and p is not mrg:
+        prev, p = p, p._parent
+        if isinstance(p, (ast.ListComp, ast.SetComp, ast.GeneratorExp)):
+            gens = [(g.target, g.iter, g.ifs) for g in p.generators] + gens
+            for g in p.generators:
+                filters += [U(i) for i in g.ifs]
+        elif isinstance(p, ast.For):
+            gens.insert(0, (p.target, p.iter, []))
+        elif isinstance(p, ast.If) and any(prev is x for x in p.body):
+            filters.append(U(p.test))
+    shape = len(gens) == 2 and all(isinstance(t, ast.Tuple) and len(t.elts) == 2 and isinstance(i, ast.Call) and call_name(i) == "enumerate" for t, i, _ in gens)
     ok = False
-    if calls:
-        a = calls[0].args
-        l = [lin(x) for x in a]
-        ok = len(a) == 4 and U(a[0]) == "row" and U(a[1]) == "col" and \
-            _eq(l[2], Lin(-1, {"row": 1, "size[0]": 1})) and _eq(l[3], Lin(-1, {"col": 1, "size[1]": 1}))
-    rep.ob("C12.R5", mrg, "Table.merge_ranges: range = (row, col) .. (row+size[0]-1, col+size[1]-1)", ok,
-           "" if ok else f"found {U(calls[0]) if calls else None}", key="C12.R5@merge_ranges:extent")
-    ok = any(isinstance(n, ast.If) and U(n.test) == "cell.is_merged" for n in body_walk(mrg)) and "enumerate(self._data)" in U(mrg) and "sorted(" in U(mrg)
-    rep.ob("C12.R5", mrg, "Table.merge_ranges: one range per merged anchor of the grid, sorted", ok, "", key="C12.R5@merge_ranges:anchors")
-    loops = [n for n in body_walk(mrg) if isinstance(n, ast.For)]
-    ok = len(loops) == 2 and U(loops[0].target).replace(" ", "").strip("()") == "row,cells" and U(loops[1].target).replace(" ", "").strip("()") == "col,cell"
-    rep.ob("C12.R5", mrg, "Table.merge_ranges: (row, col) from enumerate order", ok, "", key="C12.R5@merge_ranges:axes")
-    grid_loops = [n for n in body_walk(mrg) if isinstance(n, ast.For) and "self._data" in U(n.iter)]
+    axes_ok = False
+    anchors_ok = False
+    if shape:
+        (t1, i1, _), (t2, i2, _) = gens
+        rowv, rowcells = U(t1.elts[0]), U(t1.elts[1])
+        colv, cellv = U(t2.elts[0]), U(t2.elts[1])
+        axes_ok = U(i1.args[0]) == "self._data" and U(i2.args[0]) == rowcells
+        a_ = [expand_aliases(mrg, x) for x in call.args]
+        l = [lin(x) for x in a_]
+        ok = len(a_) == 4 and U(a_[0]) == rowv and U(a_[1]) == colv and \
+            _eq(l[2], Lin(-1, {rowv: 1, f"{cellv}.size[0]": 1})) and _eq(l[3], Lin(-1, {colv: 1, f"{cellv}.size[1]": 1}))
+        anchors_ok = filters == [f"{cellv}.is_merged"] and "sorted(" in U(mrg)
+    rep.ob("C12.R5", call, "Table.merge_ranges: range = (row, col) .. (row+size[0]-1, col+size[1]-1)", ok,
+           "" if ok else f"found {U(call)}", key="C12.R5@merge_ranges:extent")
+    rep.ob("C12.R5", mrg, "Table.merge_ranges: one range per merged anchor of the grid, sorted", anchors_ok, "" if anchors_ok else f"filters {filters}", key="C12.R5@merge_ranges:anchors")
+    rep.ob("C12.R5", mrg, "Table.merge_ranges: (row, col) from enumerate order", axes_ok, "", key="C12.R5@merge_ranges:axes")
     rets = [n for n in body_walk(mrg) if isinstance(n, ast.Return)]
-    ok = bool(grid_loops) and bool(rets) and all(cfgmod.dominates(mrg, grid_loops[0], r) for r in rets)
+    walk_stmt = call
+    while not isinstance(walk_stmt, ast.stmt) or not any(walk_stmt is x for x in mrg.body):
+        walk_stmt = walk_stmt._parent
+        if walk_stmt is mrg:
+            break
+    ok = bool(rets) and walk_stmt is not mrg and all(r is walk_stmt or cfgmod.dominates(mrg, walk_stmt, r) for r in rets)
     stored = sorted({U(n) for n in body_walk(mrg) if isinstance(n, ast.Attribute) and isinstance(n.value, ast.Name) and n.value.id == "self"
                      and n.attr not in ("_data", "num_rows", "num_cols")})
     ok = ok and not stored
@@ -255,25 +321,37 @@ def run(repo, rep, tier):
         return None
     w_origin = halves(packs.get("CellID")) if "CellID" in packs else None
     w_size = halves(packs.get("TableSize")) if "TableSize" in packs else None
-    # reader
+    # reader: which name receives the high half and which the low half of each packed word (bit provenance, so the
+    # unpacking may be one tuple assignment, separate statements or go through a temporary)
+    from ..bits import bv
+    from ..symexec import expand_aliases
     r_origin = r_size = None
+    halves_seen = {"origin": {}, "size": {}}
+    pairs = []
     for n in body_walk(cm):
-        if isinstance(n, ast.Assign) and isinstance(n.targets[0], ast.Tuple) and isinstance(n.value, ast.Tuple) and len(n.value.elts) == 2:
-            a, b = n.value.elts
-            ta, tb = [U(x) for x in n.targets[0].elts]
-            def kind(e):
-                if isinstance(e, ast.BinOp) and isinstance(e.op, ast.RShift) and try_const(e.right) == 16:
-                    return "hi", U(e.left)
-                if isinstance(e, ast.BinOp) and isinstance(e.op, ast.BitAnd) and try_const(e.right) == 0xFFFF:
-                    return "lo", U(e.left)
-                return None, None
-            ka, kb = kind(a), kind(b)
-            if ka[0] and kb[0]:
-                d = {ka[0]: ta, kb[0]: tb}
-                if "origin" in ka[1]:
-                    r_origin = (d.get("hi"), d.get("lo"))
-                elif "size" in ka[1]:
-                    r_size = (d.get("hi"), d.get("lo"))
+        if isinstance(n, ast.Assign) and len(n.targets) == 1:
+            t, v = n.targets[0], n.value
+            if isinstance(t, ast.Tuple) and isinstance(v, ast.Tuple) and len(t.elts) == len(v.elts):
+                pairs += list(zip(t.elts, v.elts))
+            elif isinstance(t, ast.Name):
+                pairs.append((t, v))
+    for t, v in pairs:
+        b_ = bv(expand_aliases(cm, v), {})
+        srcs = b_.sources()
+        if len(srcs) != 1:
+            continue
+        src = next(iter(srcs))
+        which = "origin" if src.endswith("origin.packedData") else ("size" if src.endswith("size.packedData") else None)
+        if which is None:
+            continue
+        if all(b_.bits.get(p) == (src, p + 16) for p in range(16)) and not any(b_.bits.get(p, (None, -1))[1] < 16 for p in b_.bits):
+            halves_seen[which]["hi"] = U(t)
+        elif b_.bits == {p: (src, p) for p in range(16)}:
+            halves_seen[which]["lo"] = U(t)
+    if len(halves_seen["origin"]) == 2:
+        r_origin = (halves_seen["origin"]["hi"], halves_seen["origin"]["lo"])
+    if len(halves_seen["size"]) == 2:
+        r_size = (halves_seen["size"]["hi"], halves_seen["size"]["lo"])
     def axis(t):
         t = t or ""
         # (row, col) / (rows, cols) tuples: the index decides; otherwise the name
